@@ -1,7 +1,319 @@
 import KM.Driver.Core
-/-! Driver for C07 (stub until the property's model is built). -/
-namespace KM.Driver.C07
+import KM.Model.PwCache
+/-! Driver for C07. One op language for both harnesses (real LDAP authenticator over a reference
+store in `lib/pwauth/ldap`; real authenticator + real `RuntimeState` storage + `loginHandler` in
+`cmd/keymasterd`). Users `0` alice, `1` bob (in the directory), `2` carol (never in it);
+passwords `1…5`, `0` = empty. Times in hours relative to the virtual clock.
 
-def handler (_mode : String) : Option Handler := none
+* `seq <id>`                        fresh state: servers `[up, up]`, alice ↦ 1, bob ↦ 2, primary up, stores empty
+* `login <u> <pw> <l|u|m>`          name in lower / upper / mixed case (normalised away by the application)
+* `srv <i> <up|down|hang|err<code>>` · `chpw <u> <pw|->` · `anon <0|1>` · `adv <hours>` · `prim <up|slow|down>` · `sync`
+* `tamper <p|c> <u> del` | `colexp <h>` | `foreign <pw> <h>` | `other <pw> <h>` | `save <slot>` | `restore <slot>`
+
+Output of every op: `<A|R|-> <bind trace> <P0> <C0> <P1> <C1>`; a row is `-` or
+`s<subject>:p<pw>:t<type>:v<verifies>:e<signed expiry − now>:c<column expiry − now>` (hours).
+The bind trace lists the servers that answered a bind: `<i>+` success, `<i>-` invalid credentials,
+`<i>e` other result code; `-` when none did.
+
+Modes: `model`; `judge` (input `<op…> => <implementation output…>`: the property predicates of
+`KM.Props.C07` evaluated on what the real code did, with the directory's own record of which
+logins it confirmed and when). -/
+namespace KM.Driver.C07
+open KM.Util KM.PwCache
+
+def hour : Nat := 3600
+def epoch0 : Nat := 1000000 * hour
+
+structure St where
+  s : State := init
+  vault : Nat → Option Rec := fun _ => none
+
+def parseSrv (t : String) : Option Srv :=
+  if t == "up" then some .up
+  else if t == "down" || t == "hang" then some .down
+  else if t.startsWith "err" then some .err
+  else none
+
+def parsePrim (t : String) : Option Prim :=
+  if t == "up" then some .up else if t == "slow" then some .slow else if t == "down" then some .down else none
+
+def parseStore (t : String) : Option Store :=
+  if t == "p" then some .primary else if t == "c" then some .cache else none
+
+def relH (now x : Nat) : Int := ((x : Int) - (now : Int)) / (hour : Int)
+
+def rowStr (now : Nat) : Option Rec → String
+  | none => "-"
+  | some r =>
+    s!"s{r.signed.subject}:p{r.signed.pwId}:t{r.signed.type}:v{boolStr r.sigOK}:e{relH now r.signed.exp}:c{relH now r.columnExp}"
+
+def rowsStr (s : State) : String :=
+  s!"{rowStr s.now (s.primary 0)} {rowStr s.now (s.cache 0)} {rowStr s.now (s.primary 1)} {rowStr s.now (s.cache 1)}"
+
+/-- servers that answer the bind, in order, up to and including the first verdict -/
+def traceFrom (s : State) (u : User) (pw : Pw) (i : Nat) : List Srv → String
+  | [] => ""
+  | .down :: rest => traceFrom s u pw (i + 1) rest
+  | .err :: rest => s!"{i}e" ++ traceFrom s u pw (i + 1) rest
+  | .up :: _ => if s.dir u == some pw then s!"{i}+" else s!"{i}-"
+
+def trace (s : State) (u : User) (pw : Pw) : String :=
+  if pw = 0 then "-" else
+  let t := traceFrom s u pw 0 s.srv
+  if t.isEmpty then "-" else t
+
+def seqInit : State :=
+  { init with srv := [.up, .up], now := epoch0,
+              dir := fun u => if u = 0 then some 1 else if u = 1 then some 2 else none }
+
+def absH (now : Nat) (h : Int) : Nat := ((now : Int) + h * (hour : Int)).toNat
+
+def getStore (s : State) : Store → User → Option Rec
+  | .primary => s.primary
+  | .cache => s.cache
+
+def applyOps (st : St) (ops : List Op) : St × String :=
+  let s' := KM.PwCache.run st.s ops
+  ({ st with s := s' }, s!"- - {rowsStr s'}")
+
+def modelStep (st : St) : List String → St × String
+  | ["seq", _] => ({ s := seqInit }, s!"- - {rowsStr seqInit}")
+  | ["login", u, pw, _] =>
+    match u.toNat?, pw.toNat? with
+    | some u, some pw =>
+      let r := login st.s u pw
+      ({ st with s := r.1 }, s!"{if r.2 then "A" else "R"} {trace st.s u pw} {rowsStr r.1}")
+    | _, _ => (st, "bad-op")
+  | ["srv", i, t] =>
+    match i.toNat?, parseSrv t with
+    | some i, some t => applyOps st [.setServer i t]
+    | _, _ => (st, "bad-op")
+  | ["chpw", u, pw] =>
+    match u.toNat?, (if pw == "-" then some none else pw.toNat?.map some) with
+    | some u, some pw => applyOps st [.changePw u pw]
+    | _, _ => (st, "bad-op")
+  | ["anon", b] =>
+    match parseBool b with
+    | some b => applyOps st [.setAnon b]
+    | none => (st, "bad-op")
+  | ["adv", h] =>
+    match h.toNat? with
+    | some h => applyOps st [.advance (h * hour)]
+    | none => (st, "bad-op")
+  | ["prim", p] =>
+    match parsePrim p with
+    | some p => applyOps st [.setPrim p]
+    | none => (st, "bad-op")
+  | ["sync"] => applyOps st [.sync]
+  | ["tamper", sto, u, "del"] =>
+    match parseStore sto, u.toNat? with
+    | some sto, some u => applyOps st [.tamper sto u none]
+    | _, _ => (st, "bad-op")
+  | ["tamper", sto, u, "colexp", h] =>
+    match parseStore sto, u.toNat?, h.toInt? with
+    | some sto, some u, some h =>
+      match getStore st.s sto u with
+      | some r => applyOps st [.tamper sto u (some { r with columnExp := absH st.s.now h })]
+      | none => applyOps st []
+    | _, _, _ => (st, "bad-op")
+  | ["tamper", sto, u, "foreign", pw, h] =>
+    match parseStore sto, u.toNat?, pw.toNat?, h.toInt? with
+    | some sto, some u, some pw, some h =>
+      applyOps st [.tamper sto u (some { signed := { subject := u, pwId := pw, exp := absH st.s.now h, type := pwType },
+                                         sigOK := false, columnExp := absH st.s.now h })]
+    | _, _, _, _ => (st, "bad-op")
+  | ["tamper", sto, u, "other", pw, h] =>
+    match parseStore sto, u.toNat?, pw.toNat?, h.toInt? with
+    | some sto, some u, some pw, some h =>
+      let sg : Signed := { subject := u, pwId := pw, exp := absH st.s.now h, type := pwType + 1 }
+      applyOps st [.signOther sg, .tamper sto u (some { signed := sg, sigOK := true, columnExp := absH st.s.now h })]
+    | _, _, _, _ => (st, "bad-op")
+  | ["tamper", sto, u, "save", slot] =>
+    match parseStore sto, u.toNat?, slot.toNat? with
+    | some sto, some u, some slot =>
+      let st' := { st with vault := fun k => if k = slot then getStore st.s sto u else st.vault k }
+      applyOps st' []
+    | _, _, _ => (st, "bad-op")
+  | ["tamper", sto, u, "restore", slot] =>
+    match parseStore sto, u.toNat?, slot.toNat? with
+    | some sto, some u, some slot =>
+      match st.vault slot with
+      | some r => applyOps st [.tamper sto u (some r)]
+      | none => applyOps st []
+    | _, _, _ => (st, "bad-op")
+  | _ => (st, "bad-op")
+
+/-! ### judge: the property predicates on what the implementation did -/
+
+/-- a row as the harness observed it -/
+structure ORow where
+  subj : Nat
+  pw : Nat
+  type : Nat
+  ok : Bool
+  e : Int
+  c : Int
+
+def dropFirst (s : String) : String := (s.drop 1).toString
+
+def parseRow (t : String) : Option (Option ORow) :=
+  if t == "-" then some none else
+  match t.splitOn ":" with
+  | [s, p, ty, v, e, c] =>
+    match (dropFirst s).toNat?, (dropFirst p).toNat?, (dropFirst ty).toNat?, parseBool (dropFirst v),
+          (dropFirst e).toInt?, (dropFirst c).toInt? with
+    | some s, some p, some ty, some v, some e, some c => some (some { subj := s, pw := p, type := ty, ok := v, e := e, c := c })
+    | _, _, _, _, _, _ => none
+  | _ => none
+
+structure Rows where
+  p0 : Option ORow := none
+  c0 : Option ORow := none
+  p1 : Option ORow := none
+  c1 : Option ORow := none
+
+def Rows.get (r : Rows) (primary : Bool) (u : Nat) : Option ORow :=
+  if u = 0 then (if primary then r.p0 else r.c0) else if u = 1 then (if primary then r.p1 else r.c1) else none
+
+def parseRows : List String → Option Rows
+  | [a, b, c, d] =>
+    match parseRow a, parseRow b, parseRow c, parseRow d with
+    | some a, some b, some c, some d => some { p0 := a, c0 := b, p1 := c, c1 := d }
+    | _, _, _, _ => none
+  | _ => none
+
+structure JSt where
+  nowH : Int := 0                              -- virtual clock, hours
+  dir : Nat → Option Nat := fun _ => none     -- the directory's ground truth
+  prim : Prim := .up
+  /-- ground truth: what each server does (a hanging server is a server that is down) -/
+  srv : List Srv := [.up, .up]
+  rows : Rows := {}
+  confirmed : List (Nat × Nat × Int) := []    -- (user, pw, hour) the directory really confirmed
+  /-- (user, pw) whose stored hash the directory's rejection evicted from the primary -/
+  evicted : List (Nat × Nat) := []
+  /-- … and a synchronisation has completed since -/
+  evictedSynced : List (Nat × Nat) := []
+  /-- (user, pw) the directory rejected while the primary held its valid hash and could not be made
+  to drop it (primary unreachable, or the consulted cache copy was stale): known finding -/
+  lostEvict : List (Nat × Nat) := []
+
+def cacheH : Int := (cacheDur / hour : Nat)
+
+/-- the property's "valid record of `u` for `pw`" on an observed row -/
+def validFor (u pw : Nat) (r : ORow) : Bool :=
+  r.ok && r.subj == u && r.type == pwType && r.pw == pw && r.e ≥ 0 && r.c > 0
+
+def traceVerdict (t : String) : Option Bool :=
+  if t.contains '+' then some true else if (t.drop 1).toString.contains '-' then some false else none
+
+def splitArrow (fs : List String) : List String × List String :=
+  (fs.takeWhile (· ≠ "=>"), (fs.dropWhile (· ≠ "=>")).drop 1)
+
+def judgeLogin (j : JSt) (u pw : Nat) (res tr : String) (after : Rows) : String :=
+  let before := j.rows
+  let consulted := before.get (j.prim == .up) u
+  let accepted := res == "A"
+  let dirOK := pw != 0 && j.dir u == some pw
+  if res != "A" && res != "R" then s!"viol login-error result {res}"
+  else if pw == 0 && accepted then "viol empty-password-accepted the empty password was accepted"
+  else if (traceVerdict tr).isSome && traceVerdict tr != some dirOK then
+    s!"viol harness-directory-inconsistent bind trace {tr} but the directory holds {repr (j.dir u)}"
+  else match (if j.srv.any (· == Srv.up) then some dirOK else none) with
+  | some v =>
+    -- some server gives verdicts (ground truth of the harness, whether or not the code asked it)
+    if accepted != v then
+      s!"viol dir-verdict-overridden a server was answering (directory verdict {if v then "accept" else "reject"}, binds seen: {tr}) but the login was {res}"
+    else if v && j.prim != .down &&
+        !(match after.get true u with
+          | some r => r.ok && r.subj == u && r.pw == pw && r.type == pwType && r.e == cacheH && r.c == cacheH
+          | none => false) then
+      "viol accept-not-refreshed directory accepted but the primary holds no fresh record (now + cache duration) for this user and password"
+    else if !v && j.prim != .down && (consulted.map (validFor u pw) == some true) && (after.get true u).isSome then
+      "viol rejected-cached-not-evicted directory rejected the cached password but the record is still in the primary"
+    else "ok"
+  | none =>
+    if !accepted then "ok"
+    else match consulted with
+    | none => "viol offline-no-record accepted offline although the consulted store holds no row"
+    | some r =>
+      if !r.ok then "viol offline-bad-signature accepted offline on a record that does not verify"
+      else if r.subj != u then "viol offline-wrong-subject accepted offline on a record signed for another user"
+      else if r.type != pwType then "viol offline-wrong-type accepted offline on a record signed for another data type"
+      else if r.pw != pw then "viol offline-wrong-password accepted offline a password the record does not hold"
+      else if r.e < 0 then "viol offline-expired accepted offline on a record whose signed expiry has passed"
+      else if !(j.confirmed.any (fun (cu, cp, ct) => cu == u && cp == pw && ct ≤ j.nowH && j.nowH + r.e ≤ ct + cacheH)) then
+        "viol offline-unconfirmed accepted offline without a directory-confirmed login of this user and password within the cache duration"
+      else if j.evictedSynced.contains (u, pw) then
+        "viol evicted-hash-survives-sync accepted offline a password the directory rejected (hash evicted from the primary, caches synchronised since)"
+      else if j.lostEvict.contains (u, pw) then
+        "viol eviction-lost-during-primary-outage accepted offline a password the directory rejected while the primary could not be made to drop its hash"
+      else "ok"
+
+def judgeStep (j : JSt) (fs : List String) : JSt × String :=
+  let (op, out) := splitArrow fs
+  match out with
+  | res :: tr :: rowFields =>
+    match parseRows rowFields with
+    | none => (j, "bad-op")
+    | some after =>
+      let j' := { j with rows := after }
+      match op with
+      | ["seq", _] => ({ rows := after, dir := fun u => if u = 0 then some 1 else if u = 1 then some 2 else none }, "ok")
+      | ["login", u, pw, _] =>
+        match u.toNat?, pw.toNat? with
+        | some u, some pw =>
+          let verdict := judgeLogin j u pw res tr after
+          let conf := traceVerdict tr == some true && pw != 0 && j.dir u == some pw
+          let rejected := j.srv.any (· == Srv.up) && !(pw != 0 && j.dir u == some pw)
+          let evict := rejected && j.prim == .up &&
+                       ((j.rows.get true u).map (validFor u pw) == some true) && (after.get true u).isNone
+          let lost := rejected && j.prim != .up &&
+                      ((j.rows.get true u).map (validFor u pw) == some true) && (after.get true u).isSome
+          let j2 := if conf then
+                      { j' with confirmed := (u, pw, j.nowH) :: j.confirmed,
+                                evicted := j.evicted.filter (· != (u, pw)),
+                                evictedSynced := j.evictedSynced.filter (· != (u, pw)),
+                                lostEvict := j.lostEvict.filter (· != (u, pw)) }
+                    else if evict then { j' with evicted := (u, pw) :: j.evicted }
+                    else if lost then { j' with lostEvict := (u, pw) :: j.lostEvict }
+                    else j'
+          (j2, verdict)
+        | _, _ => (j, "bad-op")
+      | ["chpw", u, pw] =>
+        match u.toNat?, (if pw == "-" then some none else pw.toNat?.map some) with
+        | some u, some pw => ({ j' with dir := fun x => if x = u then pw else j.dir x }, "ok")
+        | _, _ => (j, "bad-op")
+      | ["adv", h] =>
+        match h.toNat? with
+        | some h => ({ j' with nowH := j.nowH + h }, "ok")
+        | none => (j, "bad-op")
+      | ["prim", p] =>
+        match parsePrim p with
+        | some p => ({ j' with prim := p }, "ok")
+        | none => (j, "bad-op")
+      | ["sync"] =>
+        if j.prim != .down then ({ j' with evictedSynced := j.evicted ++ j.evictedSynced }, "ok") else (j', "ok")
+      | "tamper" :: _ :: u :: _ =>
+        -- whoever writes the databases can put an evicted (still validly signed) record back: outside
+        -- the eviction claim, which is about the synchronisation
+        match u.toNat? with
+        | some u =>
+          ({ j' with evicted := j.evicted.filter (·.1 != u),
+                     evictedSynced := j.evictedSynced.filter (·.1 != u),
+                     lostEvict := j.lostEvict.filter (·.1 != u) }, "ok")
+        | none => (j, "bad-op")
+      | ["srv", i, t] =>
+        match i.toNat?, parseSrv t with
+        | some i, some t => ({ j' with srv := j.srv.set i t }, "ok")
+        | _, _ => (j, "bad-op")
+      | ["anon", _] => (j', "ok")
+      | _ => (j, "bad-op")
+  | _ => (j, "bad-op")
+
+def handler (mode : String) : Option Handler :=
+  if mode == "model" then some { σ := St, init := {}, step := modelStep }
+  else if mode == "judge" then some { σ := JSt, init := {}, step := judgeStep }
+  else none
 
 end KM.Driver.C07
